@@ -223,6 +223,11 @@ var c09Templates = []string{
 	"%s offset 1m + %s",
 	"%s @ 3630 - %s",
 	"sum_over_time(%s[1m] offset 2m) - sum_over_time(%s[1m])",
+	"%s + on(a) %s",
+	"%s * ignoring(b) %s",
+	"timestamp(%s) - on() group_left() count(%s)",
+	"timestamp(%s) + %s",
+	"count_over_time(%s[90s]) + count_over_time(%s[30s])",
 }
 
 func c09Dataset(w Window) Dataset {
@@ -239,8 +244,9 @@ func c09Dataset(w Window) Dataset {
 					ls["b"] = b
 				}
 				var sm []Sample
+				phase := int64(len(d.Series)%4) * 3_700 // most series are scraped off the step grid
 				for t := w.StartMs - 300_000; t <= w.EndMs+30_000; t += 30_000 {
-					sm = append(sm, Sample{T: t, V: v})
+					sm = append(sm, Sample{T: t - phase, V: v})
 					v += 1
 				}
 				d.Series = append(d.Series, Series{Labels: ls, Samples: sm})
@@ -297,6 +303,15 @@ func (p c09Prop) Gen(seed uint64, tier string, i int) Case {
 					ds.Series = append(ds.Series, s)
 				}
 				i0++
+			}
+		}
+		c.Dataset = ds
+	} else if r.P(0.5) {
+		// thinned: some match groups of on(a)/ignoring(b) are unique, others ambiguous
+		var ds Dataset
+		for _, s := range c.Dataset.Series {
+			if r.P(0.5) {
+				ds.Series = append(ds.Series, s)
 			}
 		}
 		c.Dataset = ds
@@ -408,6 +423,9 @@ var c10Queries = []string{
 	`m0 + on(a,b,c) m0`, `max by (a) (m0 * 2)`, `sum(m0) + count(m1)`, `-sum by (b) (m0)`, `sum without (a) (m0)`,
 	`clamp_min(sum by (a) (m0), 10)`, `sum by (a) (m0 > 5)`, `count(m0 > bool 5)`, `max_over_time(m0[2m])`, `sum(last_over_time(m0[1m]))`,
 	`histogram_quantile(0.9, sum by (le) (h_bucket))`,
+	// selectors that are not bound to one metric name: series of different partitions can coincide once the name is dropped
+	`abs({__name__=~"m.*"})`, `-{__name__=~"m0|m1"}`, `rate({__name__=~"m.*"}[2m])`, `max_over_time({__name__=~"m.*"}[1m])`, `sum by (a) (-{__name__=~"m.*"})`,
+	`max({__name__=~"m.*"})`, `count(abs({a=~".+"}))`, `{__name__=~"m.*"} * 2`, `sum(rate({__name__=~"m.+"}[2m]))`,
 }
 
 func c10Exhaustive() int { return (3 + 9 + 27 + 81 + 243) * 8 } // n=1..5 series, 8 queries, x window kind folded into index
